@@ -42,7 +42,7 @@ ObsLabels(p, lg, l0, cl, st, grp, gk, km, ob) ==
         badNext  == { i \in 1..Len(ob.next) :
                         ob.next[i][3] \notin NextSet(lg, los, st[km[ob.next[i][1]]], ob.next[i][2]) }
         badStored == { w \in DOMAIN km :
-                        ob.stored[w] # (IF km[w] \in grp \/ km[w] \notin gk THEN st[km[w]] ELSE NoGroup) }
+                        IF km[w] \in grp \/ km[w] \notin gk THEN ob.stored[w] # st[km[w]] ELSE ob.stored[w] \notin {None, NoGroup} }
     IN  (IF ob.cur # CurOf(lg) \/ ob.tcur # CurOf(lg) \/ badCur # {} THEN {<<"C01.cur", p, ob.cur, CurOf(lg)>>} ELSE {})
         \cup (IF ob.read \notin { RunOf(lg, x, L) : x \in los } THEN {<<"C02.read", p>>} ELSE {})
         \cup (IF badPolls # {} THEN {<<"C02.poll", p, ob.polls[FirstBad(badPolls)][1], ob.polls[FirstBad(badPolls)][2], Cardinality(badPolls)>>} ELSE {})
@@ -117,6 +117,14 @@ InputLabels(e) ==
             IF ~Ok(e) THEN (IF kmap[e.who] \in gkeys /\ kmap[e.who] \notin groups THEN {} ELSE Refused(e))
             ELSE IF e.r \notin NextSet(log[e.p], LoSet(lo[e.p], cacheLo[e.p]), stored[e.p][kmap[e.who]], e.n)
                  THEN {<<"C07.next_result", e.p, e.who>>} ELSE {}
+      [] e.ev = "append" ->
+            (* C18: a send carrying client-chosen ids must leave exactly the specification's log (first occurrences kept *)
+            (* with de-duplication on, everything kept with it off), whatever else the sweep finds                      *)
+            Refused(e) \cup
+            (IF (\E i \in 1..Len(e.batch) : e.batch[i][2] # 0)
+                /\ (e.obs[e.p].cur # CurOf(log'[e.p])
+                    \/ e.obs[e.p].read \notin { RunOf(log'[e.p], x, Len(log'[e.p])) : x \in LoSet(lo'[e.p], cacheLo'[e.p]) })
+             THEN {<<"C18.append", e.p, e.obs[e.p].cur, CurOf(log'[e.p])>>} ELSE {})
       [] e.ev \in {"del_group", "make_group"} -> {}
       [] e.ev = "restart" -> IF Ok(e) THEN {} ELSE {<<"C03.shutdown", e.res>>}
       [] OTHER -> Refused(e)
